@@ -18,6 +18,9 @@ FreqsSmall == {R0, R1}
 NearQuick == {Q(2001, 2000), Q(501, 500)}
 NearAll == {Q(2001, 2000), Q(1999, 2000), Q(501, 500), Q(499, 500), Q(4001, 2000), Q(1001, 500), Q(1, 2000), Q(1, 500)}
 FreqsAll == {R0, R1, RI(2), Q(1,2), RI(10)}
+\* around a source at 1000 rad/s: the resolution is an absolute distance (1/1000 rad/s), so 2/1000 away is already "another frequency"
+FreqsHigh == {R0, RI(1000)}
+NearHigh == {Q(500001, 500), Q(499999, 500), Q(2000001, 2000), Q(1999999, 2000), Q(100001, 100), Q(99999, 100)}
 
 Obs(b, r, s) ==
   [phi |-> [n \in Used(b) |-> Phi(b, r, s, n)],
